@@ -8,9 +8,10 @@ import verif
 RULE = ("target strings by class (dotted IPv4, IPv4 CIDR /0../32 aligned and unaligned, every IPv6 notation incl. "
         "IPv4-mapped and zone ids, IPv6 CIDR with small and large host parts, garbage) through the real ip.ParseIPNet; "
         "nets (IPv4 /0../32, 16-byte spellings, IPv6, non-canonical masks, nil) through the real ipGenerator with seeded "
-        "math/rand (risky ones in a child process); exclusion files (hosts, CIDRs nested/overlapping/covering, comments, "
+        "math/rand (risky ones in a child process); exclusion files (hosts, CIDRs, families of nested entries in narrow-first / wide-first / shuffled order "
+        "sharing or not sharing first and last address, duplicates, host+net, adjacent siblings, covering blocks, comments, "
         "blanks, one refused line in a sixth of them) through the real parseExcludeFile + cidranger + filter stage, "
-        "membership asked for every address of a /20../32; end to end: arp/icmp/tcp/udp/tcp fin/socks/elastic/docker with "
+        "membership asked for every address of a /20../32 and at first-1/first/last/last+1 of every entry; end to end: arp/icmp/tcp/udp/tcp fin/socks/elastic/docker with "
         "IPv6, mapped and garbage targets in a network namespace with a wire log; non-trivial = accepted target / complete or prefix walk / "
         "accepted exclusion file; distinct by input")
 
@@ -176,6 +177,13 @@ def spec_on_impl(o):
             want = 1 if covered(lines, x) else 0
             if m != want:
                 return "exclusion membership of %s is %d, the file says %d" % (dotted(x), m, want)
+        for xh, ans in o.get("extra") or []:
+            x = v4num(hb(xh))
+            if x is None:
+                continue
+            want = 1 if covered(lines, x) else 0
+            if int(ans) != want:
+                return "exclusion membership of %s (a boundary of an entry) is %s, the file says %d" % (dotted(x), ans, want)
         if not o["out_ok"]:
             return "filter stage did not close its output"
         rin, rout = decode_reqs(hb(o["in"])), decode_reqs(hb(o["out"]))
@@ -201,6 +209,26 @@ def spec_on_impl(o):
                 return "filter stage passes %r where %r is due" % (g, w)
         return None
     return None
+
+
+def narrow_before_wide(o):
+    """does the file list a narrower entry BEFORE a wider one with the same network address?"""
+    nets = [(l["base"], l["prefix"]) for l in o["lines"] if l["meaning"] == "net"]
+    for i, (b1, p1) in enumerate(nets):
+        for (b2, p2) in nets[i + 1:]:
+            if p2 < p1 and (b1 >> (32 - p1)) << (32 - p1) == (b2 >> (32 - p2)) << (32 - p2):
+                return True
+    return False
+
+
+def nested_pairs(o):
+    nets = [(l["base"], l["prefix"]) for l in o["lines"] if l["meaning"] == "net"]
+    n = 0
+    for i, (b1, p1) in enumerate(nets):
+        for j, (b2, p2) in enumerate(nets):
+            if i != j and p2 < p1 and (b1 >> (32 - p2)) == (b2 >> (32 - p2)):
+                n += 1
+    return n
 
 
 def key_of(o):
@@ -271,6 +299,8 @@ def report(ctx, o, why):
         key = "excl:seed=%d" % o["seed"]
         tag = "excl-%d" % o["seed"]
     small = {k: v for k, v in o.items() if k not in ("member", "in", "out")}
+    small.setdefault("net_base", 0)
+    small.setdefault("net_k", 0)
     path = ctx.write_replay(tag or "case", {"property": "C02", "what": why, "input": inp, "observed": small,
                                             "replay_cmd": "bin/check C02 --replay <this file>"})
     ctx.findings.append({"key": key, "what": why, "replay": path})
@@ -286,6 +316,22 @@ def run(ctx):
     ctx.assumptions += ["the target argument reaches the generators only through ip.ParseIPNet (parseDstSubnet, arp RunE)"]
     from checks import tgtlib
     gen_ok, model_ok, proof_ok = tgtlib.gen_and_prove(ctx, "Spec/C02.vo", "Properties/C02.v")
+    # say which statements of parseExcludeFile differ from the shape the model was written against
+    try:
+        import difflib
+
+        def shape(path):
+            txt = open(path).read()
+            txt = txt[txt.index(":= ["):]
+            return [m.replace('""', '"') for m in re.findall(r'^\s*"((?:[^"]|"")*)";?\s*$', txt, re.M)]
+        got = shape(os.path.join(verif.COQ, "Gen", "ExcludeShape.v"))
+        want = shape(os.path.join(verif.COQ, "Model", "ExcludeShape.v"))
+        if got != want:
+            d = [l for l in difflib.unified_diff(want, got, "model", "command/config.go", lineterm="", n=1)]
+            ctx.broken.append(("tie: the body of parseExcludeFile is not the one Model/Exclude.v was written against "
+                               "(theorem C02_exclude_shape)", "\n".join(d)[:1500]))
+    except (OSError, ValueError):
+        pass
     rows = []
     if ctx.harness_build("c02"):
         args = ["-out", "cases.jsonl", "-seed", ctx.seed]
@@ -294,6 +340,11 @@ def run(ctx):
         ok, _ = ctx.harness_run("c02", args, timeout=3000)
         if ok:
             rows = ctx.read_jsonl(os.path.join(ctx.work, "cases.jsonl"))
+    ex = [o for o in rows if o["kind"] == "excl" and o["impl_ok"]]
+    if ex:
+        ctx.info.append("exclusion files: %d accepted, %d with nested entries, %d with a narrower entry listed before a wider one "
+                        "with the same network address" % (len(ex), sum(1 for o in ex if nested_pairs(o)),
+                                                           sum(1 for o in ex if narrow_before_wide(o))))
     per_class = {}
     for o in rows:
         ctx.count(o["kind"] + ":" + o["class"], key_of(o), nontrivial=nontrivial(o), sample=sample_of(o))
@@ -391,10 +442,27 @@ def replay(ctx, path):
     elif i["kind"] == "ips":
         arg = "ips:%s/%s:%d:%d" % (i["ip"], i["mask"], i["seed"], i["limit"])
     else:
-        # exclusion cases are regenerated from their seed by the full run; show the stored observation
-        print("replay of exclusion case seed=%s: %s" % (i["seed"], r["what"]))
-        print(json.dumps(i, indent=1))
-        return 1
+        # the stored file through the real parser and trie again; meanings of the lines as stored
+        lines = r["observed"]["lines"]
+        text = "".join(hb(l["raw"]).decode("latin1") + "\n" for l in lines).encode("latin1").hex()
+        base, k = r["observed"]["net_base"], r["observed"]["net_k"]
+        ctx.harness_run("c02", ["-out", "one.jsonl", "-replay", "excl:%s:%d:%d" % (text, base, k)], timeout=600)
+        o = ctx.read_jsonl(os.path.join(ctx.work, "one.jsonl"))[0]
+        bad = [l for l in lines if l["meaning"] == "bad"]
+        why = None
+        if bad:
+            why = "exclusion file with a refused entry is accepted" if o["impl_ok"] else None
+        elif not o["impl_ok"]:
+            why = "well-formed exclusion file is refused: %s" % o.get("impl_err")
+        else:
+            for j, m in enumerate(hb(o["member"])):
+                want = 1 if covered(lines, base + j) else 0
+                if m != want:
+                    why = "exclusion membership of %s is %d, the file says %d" % (dotted(base + j), m, want)
+                    break
+        print("replay exclusion file %r on %s/%d: %s" % ([hb(l["raw"]).decode("latin1") for l in lines], dotted(base), k,
+                                                          why or "property holds on this input"))
+        return 1 if why else 0
     ok, _ = ctx.harness_run("c02", ["-out", "one.jsonl", "-seed", i.get("seed", 1), "-replay", arg], timeout=600)
     o = ctx.read_jsonl(os.path.join(ctx.work, "one.jsonl"))[0]
     if o["kind"] == "parse":
